@@ -7,7 +7,7 @@ from vlib import cargo_build, tier_n, WORK
 
 
 def _nz(d):
-    return {k: v for k, v in d.items() if not (isinstance(v, int) and v == 0 and k not in ("size", "bidi", "uni", "suni", "reset_stream", "stop_stream"))}
+    return {k: v for k, v in d.items() if not (isinstance(v, int) and v == 0 and k not in ("size", "bidi", "uni", "suni", "reset_stream", "stop_stream", "stop_after"))}
 
 
 def fam_mixed(rng, i):
@@ -38,6 +38,9 @@ def fam_mixed(rng, i):
         "net_mtu": rng.choice([65535, 65535, 1500, 1300]),
         "deadline_ms": 120000,
         "retry": rng.choice([0, 0, 0, 0, 1]),
+        "wapi": rng.choice([0, 0, 9, 9, 1, 2, 3, 4]), "rapi": rng.choice([0, 0, 9, 9, 1, 2, 3]),
+        "rbuf": rng.choice([1, 100, 700, 5000]),
+        "c.send_buffer": rng.choice([0, 0, 2000, 20000]), "s.send_buffer": rng.choice([0, 0, 3000]),
     }
     if p["bidi"] + p["uni"] + p["suni"] == 0:
         p["bidi"] = 1
@@ -46,9 +49,12 @@ def fam_mixed(rng, i):
         p["reset_after"] = rng.choice([1, 100, 3000])
     if rng.random() < 0.2:
         p["stop_stream"] = 0
-        p["stop_after"] = rng.choice([1, 100, 3000])
+        p["stop_after"] = rng.choice([0, 0, 1, 100, 3000])
     if rng.random() < 0.1:
         p["close_at_ms"] = rng.choice([30, 200, 1000])
+    if "reset_stream" in p and rng.random() < 0.3:
+        p["reset_after"] = 10**9          # never during the writes: finish first, reset a little later
+        p["reset_after_finish_ms"] = rng.choice([1, 30, 120])
     return _nz(p)
 
 
@@ -132,7 +138,13 @@ def fam_flowctl(rng, i):
             p["s.data_window"] = rng.choice([0, p["reset_after"] * 4])
     if rng.random() < 0.3:
         p["stop_stream"] = 0
-        p["stop_after"] = rng.choice([1, win // 2 + 1, win * 2])
+        p["stop_after"] = rng.choice([0, 0, 1, win // 2 + 1, win * 2])
+    if "reset_stream" in p and rng.random() < 0.25:
+        p["reset_after"] = 10**9
+        p["reset_after_finish_ms"] = rng.choice([1, 30, 120])
+    p["wapi"] = rng.choice([0, 0, 9, 1, 3])
+    p["rapi"] = rng.choice([0, 0, 9, 1, 2])
+    p["rbuf"] = rng.choice([1, 50, 700])
     return _nz(p)
 
 
